@@ -206,7 +206,7 @@ PROPS['C14'] = dict(
     level_note='Slot-colliding structures depend on the per-process random keys and are searched at start-up (counted in classes); the mate band is the engine\'s own score2str definition.',
     rule='evaluations = warm-vs-fresh comparisons. Non-trivial = distinct histories containing an expected cache hit, a slot collision member, or clear-then-pawnless.',
     assumptions=[],
-    quick=dict(cases=880, shards=16, scale=3, gates={'c14:pawn_cache_hit_expected': 300, 'c14:slot_collision_eval': 300, 'c14:pawnless_after_clear': 100, 'c14:slot0_structures_found': 1, 'c14:slot0_clear_pawnless_sequence': 20}, min_nontrivial=1000),
+    quick=dict(cases=880, shards=16, scale=3, gates={'c14:pawn_cache_hit_expected': 300, 'c14:slot_collision_eval': 300, 'c14:pawnless_after_clear': 100, 'c14:slot0_structures_found': 4, 'c14:slot0_clear_pawnless_sequence': 20}, min_nontrivial=1000),
     thorough=dict(cases=6000, shards=16, scale=3, gates={'c14:slot0_structures_found': 4}, min_nontrivial=50000),
 )
 
@@ -274,7 +274,7 @@ PROPS['C06'] = dict(
     assumptions=['the hook callback runs on the search thread at the documented points (engine/verif_hooks.h)'],
     run_fn='run_c06', replay_fn='replay_c06', timing_signatures=['stop:lost:free_running'],
     quick=dict(cases=40, shards=16, scale=3, race_shards=4, race_cases=4, race_min_sessions=12,
-               gates={'c06:stop_delivered_at_thread_start': 10, 'c06:stop_delivered_at_go_entry': 10, 'c06:stop_delivered_at_go_after_init': 10, 'c06:stop_delivered_at_go_after_reset': 10,
+               gates={'c06:stop_delivered_at_thread_start': 5, 'c06:stop_delivered_at_go_entry': 5, 'c06:stop_delivered_at_go_after_init': 5, 'c06:stop_delivered_at_go_after_reset': 5,
                       'c06:stop_delivered_at_node_visit': 40, 'c06:stop_delivered_at_iteration_end': 4, 'c06:stop_delivered_at_before_bestmove': 3, 'c06:explosive_position': 40, 'c06:free_running_trial': 1000}, min_nontrivial=150),
     thorough=dict(cases=400, shards=16, scale=3, race_shards=16, race_cases=40, race_min_sessions=400, min_nontrivial=3000),
 )
